@@ -36,6 +36,7 @@ class Check(BaseCheck):
     def translate(self):
         extract.gen_fem()
         extract.gen_diffgeo()
+        extract.gen_poisson()
 
     def problems(self, seed, n_tri, n_tet):
         rng = gen.rng_for(seed, "c08")
